@@ -917,7 +917,7 @@ class Interp:
                         for im in self.facts.impls:
                             if im.get('trait_def') and strip_generics(im['trait_def']) == 'core::convert::From' and ty_head(im['self']) == tgt_ and ('<' + src_) in im['trait'].replace(' ', ''):
                                 for item in im['items']:
-                                    fb = self.facts.body(strip_generics(item))
+                                    fb = self.facts.bodies.get(item) or self.facts.body(strip_generics(item))
                                     if fb is not None and last_seg(item) == 'from':
                                         conv = self.run_body(fb, [ev], depth + 1)
                                         return ('adt', 'core::result::Result', 1, [Cell(conv)])
